@@ -82,6 +82,8 @@ type c3inst struct {
 	res  *c3ident
 	row  int
 	args []c3arg
+	// positions in the row's flag-keyword list (`F<i>,<i>…`: nuw nsw / exact / volatile / the fast-math flags), in the order written
+	flags []int
 }
 
 func c3Inst(named map[string]*types.StructType, s string) c3inst {
@@ -94,6 +96,18 @@ func c3Inst(named map[string]*types.StructType, s string) c3inst {
 	in.row, _ = strconv.Atoi(f[1])
 	if f[2] != "-" {
 		for _, a := range strings.Split(f[2], "!") {
+			if a[0] == 'F' {
+				if len(a) > 1 {
+					for _, t := range strings.Split(a[1:], ",") {
+						k, err := strconv.Atoi(t)
+						if err != nil {
+							panic("harness: bad flag " + a)
+						}
+						in.flags = append(in.flags, k)
+					}
+				}
+				continue
+			}
 			var arg c3arg
 			arg.kind = a[0]
 			switch a[0] {
@@ -156,6 +170,60 @@ var c3Preds = []enum.IPred{enum.IPredEQ, enum.IPredNE, enum.IPredUGT, enum.IPred
 
 var c3FPreds = []enum.FPred{enum.FPredFalse, enum.FPredOEQ, enum.FPredOGT, enum.FPredOGE, enum.FPredOLT, enum.FPredOLE, enum.FPredONE, enum.FPredORD,
 	enum.FPredUEQ, enum.FPredUGT, enum.FPredUGE, enum.FPredULT, enum.FPredULE, enum.FPredUNE, enum.FPredUNO, enum.FPredTrue}
+
+var c3FMF = []enum.FastMathFlag{enum.FastMathFlagNNaN, enum.FastMathFlagNInf, enum.FastMathFlagNSZ, enum.FastMathFlagARcp, enum.FastMathFlagContract,
+	enum.FastMathFlagAFn, enum.FastMathFlagReassoc, enum.FastMathFlagFast}
+
+// c3ApplyFlags sets the flags of an instruction from positions in the keyword list of its row (lean/LlirModel/Core3.lean: kOverflow, kExact, kVolatile, kFMF)
+func c3ApplyFlags(inst interface{}, flags []int) {
+	if len(flags) == 0 {
+		return
+	}
+	var ovf []enum.OverflowFlag
+	var fmf []enum.FastMathFlag
+	for _, k := range flags {
+		ovf = append(ovf, []enum.OverflowFlag{enum.OverflowFlagNUW, enum.OverflowFlagNSW}[k%2])
+		fmf = append(fmf, c3FMF[k%len(c3FMF)])
+	}
+	switch x := inst.(type) {
+	case *ir.InstAdd:
+		x.OverflowFlags = ovf
+	case *ir.InstSub:
+		x.OverflowFlags = ovf
+	case *ir.InstMul:
+		x.OverflowFlags = ovf
+	case *ir.InstShl:
+		x.OverflowFlags = ovf
+	case *ir.InstUDiv:
+		x.Exact = true
+	case *ir.InstSDiv:
+		x.Exact = true
+	case *ir.InstLShr:
+		x.Exact = true
+	case *ir.InstAShr:
+		x.Exact = true
+	case *ir.InstStore:
+		x.Volatile = true
+	case *ir.InstLoad:
+		x.Volatile = true
+	case *ir.InstGetElementPtr:
+		x.InBounds = true
+	case *ir.InstFNeg:
+		x.FastMathFlags = fmf
+	case *ir.InstFAdd:
+		x.FastMathFlags = fmf
+	case *ir.InstFSub:
+		x.FastMathFlags = fmf
+	case *ir.InstFMul:
+		x.FastMathFlags = fmf
+	case *ir.InstFDiv:
+		x.FastMathFlags = fmf
+	case *ir.InstFRem:
+		x.FastMathFlags = fmf
+	default:
+		panic(fmt.Sprintf("harness: flags on %T", inst))
+	}
+}
 
 func c3AggElem(t types.Type, ks []uint64) types.Type {
 	for _, k := range ks {
@@ -557,6 +625,7 @@ func core3Prepare(named map[string]*types.StructType, a []string) (*ir.Func, fun
 			if g, ok := p.inst.(*ir.InstGetElementPtr); ok {
 				g.Type()
 			}
+			c3ApplyFlags(p.inst, p.in.flags)
 		}
 	}
 }
